@@ -3,6 +3,7 @@ package main
 // Bookkeeping-table operations of the inotify backend and their pairing (C04.3, C09, C12).
 
 import (
+	"go/token"
 	"go/types"
 	"sort"
 	"strings"
@@ -50,6 +51,111 @@ func findTables(a *An) *tableFacts {
 }
 
 func collectTableOps(a *An, tf *tableFacts, w *Walker) []tableOp {
+	return expandElementKeys(w, collectTableOps0(a, tf, w))
+}
+
+// expandElementKeys: an operation whose key is (built from) an element of a local slice stands for one operation per
+// value put into that slice, under the condition of putting it there ("collect the paths first, then drop each").
+func expandElementKeys(w *Walker, ops []tableOp) []tableOp {
+	type src struct {
+		path string
+		cond DNF
+	}
+	elems := map[string][]src{}
+	undecided := map[string]bool{}
+	visitOfInstr := map[*Ctx]map[ssa.Instruction]*Visit{}
+	for _, v := range w.Visits {
+		if visitOfInstr[v.Ctx] == nil {
+			visitOfInstr[v.Ctx] = map[ssa.Instruction]*Visit{}
+		}
+		visitOfInstr[v.Ctx][v.Instr] = v
+	}
+	for _, v := range w.Visits {
+		ld, ok := v.Instr.(*ssa.UnOp)
+		if !ok || ld.Op != token.MUL {
+			continue
+		}
+		ia, ok := ld.X.(*ssa.IndexAddr)
+		if !ok {
+			continue
+		}
+		if _, isSlice := ia.X.Type().Underlying().(*types.Slice); !isSlice {
+			continue
+		}
+		e := stripIDs(v.Ctx.path(ld))
+		if _, done := elems[e]; done || undecided[e] {
+			continue
+		}
+		// is this element used in any key at all?
+		used := false
+		for _, op := range ops {
+			if strings.Contains(op.Key, e) || strings.Contains(op.Val, e) {
+				used = true
+			}
+		}
+		if !used {
+			continue
+		}
+		bv, bc := v.Ctx.resolve(ia.X)
+		ins, complete := sliceInserted(bc, bv)
+		if !complete || len(ins) == 0 {
+			undecided[e] = true
+			continue
+		}
+		for _, in := range ins {
+			cond := dnfTrue()
+			if sv := visitOfInstr[in.c][in.st]; sv != nil {
+				cond = sv.Cond
+			}
+			elems[e] = append(elems[e], src{stripIDs(in.c.path(in.v)), cond})
+		}
+	}
+	if len(elems) == 0 {
+		return ops
+	}
+	var out []tableOp
+	for _, op := range ops {
+		expanded := false
+		for e, srcs := range elems {
+			if !strings.Contains(op.Key, e) && !strings.Contains(op.Val, e) {
+				continue
+			}
+			expanded = true
+			for _, s := range srcs {
+				nv := *op.V
+				nv.Cond = safeAndDNF(op.V.Cond, s.cond)
+				if nv.Cond.isFalse() {
+					continue
+				}
+				no := op
+				no.Key = strings.ReplaceAll(op.Key, e, s.path)
+				no.Val = strings.ReplaceAll(op.Val, e, s.path)
+				no.V = &nv
+				out = append(out, no)
+			}
+			break
+		}
+		if !expanded {
+			out = append(out, op)
+		}
+	}
+	return out
+}
+
+// expandElementStrings is expandElementKeys for a plain set of key paths (path -> position).
+func expandElementStrings(w *Walker, keys map[string]string) map[string]string {
+	var ops []tableOp
+	for k, pos := range keys {
+		ops = append(ops, tableOp{Key: k, Val: pos, V: &Visit{Cond: dnfTrue()}})
+	}
+	out := map[string]string{}
+	for _, op := range expandElementKeys(w, ops) {
+		out[op.Key] = op.Val
+	}
+	return out
+}
+
+func collectTableOps0(a *An, tf *tableFacts, w *Walker) []tableOp {
 	var out []tableOp
 	for _, v := range w.Visits {
 		switch x := v.Instr.(type) {
